@@ -308,6 +308,9 @@ func (p *printVisitor) EnterOperationDefinition(ref int) {
 	case ast.OperationTypeQuery:
 		if hasName || hasVariables || hasDirectives || hasDescription {
 			p.write(literal.QUERY)
+		} else if p.followsTypeSystemDefinition(ref) {
+			p.write(literal.QUERY)
+			p.write(literal.SPACE)
 		}
 	case ast.OperationTypeMutation:
 		p.write(literal.MUTATION)
@@ -325,6 +328,22 @@ func (p *printVisitor) EnterOperationDefinition(ref int) {
 			p.write(literal.SPACE)
 		}
 	}
+}
+
+// followsTypeSystemDefinition reports whether the root node before the operation is a type system
+// definition or extension. Those may end without a body (`input I`, `type T implements I`,
+// `extend schema @d`), so a bare selection set printed after one would be read as its body.
+func (p *printVisitor) followsTypeSystemDefinition(ref int) bool {
+	prev := ast.NodeKindUnknown
+	for _, node := range p.document.RootNodes {
+		if node.Kind == ast.NodeKindOperationDefinition && node.Ref == ref {
+			break
+		}
+		if node.Kind != ast.NodeKindUnknown {
+			prev = node.Kind
+		}
+	}
+	return prev != ast.NodeKindUnknown && prev != ast.NodeKindOperationDefinition && prev != ast.NodeKindFragmentDefinition
 }
 
 func (p *printVisitor) LeaveOperationDefinition(ref int) {
